@@ -1643,8 +1643,19 @@ class CodeGenerator(StructuredCodeGenerator):
                         subscript_str=subscript_str,
                         expr=str(expr)[:50]))
 
-            from dagrt.data import UserType
+            from dagrt.data import Array, UserType
             if not isinstance(sym_kind, UserType):
+                if (isinstance(sym_kind, Array)
+                        and not assignee_subscript
+                        and not isinstance(expr, Variable)
+                        and self.is_array_valued(expr)):
+                    # Assigning an array-valued expression to an allocatable
+                    # array (re)allocates it with a lower bound of 1, but
+                    # dagrt arrays are indexed from 0. Allocate explicitly,
+                    # then the assignment leaves the bounds alone.
+                    self.emit_array_allocation_for_assignment(
+                            assignee_fortran_name, self.expr(expr))
+
                 self.emit(
                         "{name}{subscript_str} = {expr}"
                         .format(
@@ -1658,6 +1669,46 @@ class CodeGenerator(StructuredCodeGenerator):
                         is_rhs_target=True)
 
         self.emit("")
+
+    def is_array_valued(self, expr):
+        """Return *True* if the arithmetic expression *expr* evaluates to an
+        array, i.e. if it mentions an array variable outside of a subscript.
+        """
+        from pymbolic.primitives import Power, Product, Quotient, Subscript, Sum
+
+        from dagrt.data import Array
+
+        if isinstance(expr, Variable):
+            try:
+                kind = self.sym_kind_table.get(self.current_function, expr.name)
+            except KeyError:
+                return False
+            return isinstance(kind, Array)
+        elif isinstance(expr, Subscript):
+            return False
+        elif isinstance(expr, (Sum, Product)):
+            return any(self.is_array_valued(ch) for ch in expr.children)
+        elif isinstance(expr, Quotient):
+            return (self.is_array_valued(expr.numerator)
+                    or self.is_array_valued(expr.denominator))
+        elif isinstance(expr, Power):
+            return (self.is_array_valued(expr.base)
+                    or self.is_array_valued(expr.exponent))
+        else:
+            return False
+
+    def emit_array_allocation_for_assignment(self, fortran_name, expr_str):
+        with FortranIfEmitter(
+                self.emitter, "allocated(%s)" % fortran_name, self):
+            with FortranIfEmitter(
+                    self.emitter,
+                    f"size({fortran_name}).ne.size({expr_str})", self):
+                self.emit("deallocate(%s)" % fortran_name)
+
+        with FortranIfEmitter(
+                self.emitter, ".not.allocated(%s)" % fortran_name, self):
+            self.emit("allocate({name}(0:size({expr})-1))".format(
+                name=fortran_name, expr=expr_str))
 
     def emit_extra_arg_decl(self, emitter=None):
         if emitter is None:
